@@ -281,3 +281,25 @@ mod test {
         assert_eq!(au64.get(), 123);
     }
 }
+
+#[cfg(prometheus_verif)]
+impl AtomicF64 {
+    /// Verification hook: the wrapped shim cell.
+    pub fn verif_inner(&self) -> &StdAtomicU64 {
+        &self.inner
+    }
+}
+#[cfg(prometheus_verif)]
+impl AtomicU64 {
+    /// Verification hook: the wrapped shim cell.
+    pub fn verif_inner(&self) -> &StdAtomicU64 {
+        &self.inner
+    }
+}
+#[cfg(prometheus_verif)]
+impl AtomicI64 {
+    /// Verification hook: the wrapped shim cell.
+    pub fn verif_inner(&self) -> &StdAtomicI64 {
+        &self.inner
+    }
+}
